@@ -55,10 +55,12 @@ VARIABLES
   pc, op, tk, got, polled, left, res, buf, nops,
   mon,         \* Props monitor
   hb,          \* HB monitor
+  own,         \* owning elements: [slots: per thread, the Option slots of its buffered iterator (position or -1),
+               \*                   expd: per thread, the destructor runs predicted for the step in progress (ids)]
   h
 
-vars == <<cf, reserved, yielded, completed, taken, noneSeen, calls, alive, pc, op, tk, got, polled, left, res, buf, nops, mon, hb, h>>
-view == <<cf, reserved, yielded, completed, taken, noneSeen, calls, alive, pc, op, tk, got, polled, left, res, buf, nops, mon, hb>>
+vars == <<cf, reserved, yielded, completed, taken, noneSeen, calls, alive, pc, op, tk, got, polled, left, res, buf, nops, mon, hb, own, h>>
+view == <<cf, reserved, yielded, completed, taken, noneSeen, calls, alive, pc, op, tk, got, polled, left, res, buf, nops, mon, hb, own>>
 
 Workers == 1..cf.nt
 T == 0..cf.nt
@@ -74,10 +76,10 @@ MonCfg(c) == [len |-> c.len, base |-> c.base, fam |-> "ticket", hint |-> c.hint,
 
 Ops ==
   LET on(k) == k \in OpKinds
-      sized(k) == IF on(k) THEN {[k |-> k, n |-> n, take |-> -1] : n \in Sizes} ELSE {}
-      plain(k) == IF on(k) THEN {[k |-> k, n |-> 0, take |-> -1]} ELSE {}
-      taking(k) == IF on(k) THEN {[k |-> k, n |-> 0, take |-> j] : j \in Takes} ELSE {}
-      chunks == IF on("chunk") THEN {[k |-> "chunk", n |-> n, take |-> j] : n \in Sizes, j \in Takes} ELSE {}
+      sized(k) == IF on(k) THEN {[k |-> k, n |-> n, take |-> -1, fin |-> FALSE] : n \in Sizes} ELSE {}
+      plain(k) == IF on(k) THEN {[k |-> k, n |-> 0, take |-> -1, fin |-> FALSE]} ELSE {}
+      taking(k) == IF on(k) THEN UNION {{[k |-> k, n |-> 0, take |-> j, fin |-> f] : f \in (IF k = "bnext" /\ j # -1 THEN BOOLEAN ELSE {FALSE})} : j \in Takes} ELSE {}
+      chunks == IF on("chunk") THEN {[k |-> "chunk", n |-> n, take |-> j, fin |-> FALSE] : n \in Sizes, j \in Takes} ELSE {}
   IN plain("next") \cup plain("nextid") \cup chunks \cup sized("bnew") \cup taking("bnext") \cup plain("bdrop")
      \cup sized("foreach") \cup sized("eforeach") \cup sized("fold")
      \cup taking("values") \cup taking("idsvalues")
@@ -85,7 +87,7 @@ Ops ==
      \cup taking("intoseq") \cup plain("drop")
 
 \* Fixed per-thread programs (three-party situations whose every interleaving is exported for replay)
-O(k, n, take) == [k |-> k, n |-> n, take |-> take]
+O(k, n, take) == [k |-> k, n |-> n, take |-> take, fin |-> FALSE]
 ScenarioProg ==
   CASE Scenario = "tri_buf_skip" -> <<  <<O("bnew", 3, -1), O("bnext", 0, -1)>>, <<O("nextid", 0, -1)>>, <<O("skip", 0, -1)>> >>
     [] Scenario = "tri_chunk_skip" -> << <<O("chunk", 3, -1)>>, <<O("chunk", 2, -1)>>, <<O("skip", 0, -1)>> >>
@@ -119,6 +121,35 @@ RHasMore(some, v) == IF ~some THEN [k |-> "hasmore", a |-> "maybe", v |-> 0]
 Sched(t) == h' = IF t = 0 THEN h ELSE [h EXCEPT !.sched = Append(@, t)]
 ClearPolled == polled' = [u \in DOMAIN polled |-> {}]
 
+(***************************************************************************)
+(* Ownership of the elements of an owning wrapped iterator (C08, C15).       *)
+(* An element is inside the wrapped iterator (positions >= taken), in a slot *)
+(* of some thread's buffered iterator, with a caller, or destroyed.  The     *)
+(* machinery destroys elements at exactly these points: a buffered pull      *)
+(* overwrites a slot that still holds a leftover of an earlier chunk; the    *)
+(* rest of a one-shot chunk dies with the chunk; a client may discard the    *)
+(* rest of a buffered chunk through the chunk iterator (fin); a buffered     *)
+(* iterator is dropped with its leftovers; items collected by a pull whose   *)
+(* wrapped next() panics die while it unwinds; the wrapped iterator is       *)
+(* dropped with everything it has not yielded.  expd[t] lists the predicted  *)
+(* destructor runs of the step in progress, in order; TraceTicket matches    *)
+(* every DropElem event of the real run against it.                          *)
+(***************************************************************************)
+OwnApplies == cf.kind \in {"iter", "iter_h"}
+OwnInit(c) == [slots |-> [t \in 0..c.nt |-> << >>], expd |-> [t \in 0..c.nt |-> << >>]]
+Span(lo, hi) == [j \in 1..(IF hi > lo THEN hi - lo ELSE 0) |-> lo + (j - 1)]
+Leftovers(sl) == SelectSeq(sl, LAMBDA x : x # -1)
+Ids(ps) == [j \in 1..Len(ps) |-> cf.base + ps[j]]
+RECURSIVE DropAll(_, _, _)
+DropAll(m, ps, j) == IF j > Len(ps) THEN m ELSE DropAll(MDropElem(m, cf.base + ps[j], TRUE), ps, j + 1)
+\* thread t: the machinery destroys the positions `dropped` (in this order), t's slots become sl
+OwnUpd(t, sl, dropped) ==
+  IF ~OwnApplies THEN own' = own
+  ELSE own' = [own EXCEPT !.slots[t] = sl, !.expd[t] = @ \o Ids(dropped)]
+MonDrop(m, dropped) == IF OwnApplies THEN DropAll(m, dropped, 1) ELSE m
+\* what is still inside the wrapped iterator (late items of a non-fused source are made on demand: never dropped)
+InSource(from) == Span(from, cf.len)
+
 PullKind(t) ==
   CASE op[t].k \in {"next", "nextid", "values", "idsvalues"} -> "s"
     [] op[t].k \in {"foreach", "eforeach", "fold"} -> IF op[t].n = 1 THEN "s" ELSE "b"
@@ -136,7 +167,7 @@ VisitSeq(m, t, b, ps, j, withIdx) ==
 
 \* end of one internal pull of thread t with the positions ps (<<>> = the pull observed the end),
 \* reported from index b.  Sets pc, res, mon, left.
-EndPull(t, b, ps) ==
+EndPullD(t, b, ps, dropped) ==
   LET k == op[t].k
       a == Len(ps)
   IN CASE k \in {"next", "nextid"} ->
@@ -146,7 +177,8 @@ EndPull(t, b, ps) ==
        [] k \in {"chunk", "bnext"} ->
             /\ res' = [res EXCEPT ![t] = IF a = 0 THEN RNone ELSE RChunk(b, ps, op[t].take)]
             /\ pc' = [pc EXCEPT ![t] = "ret"]
-            /\ UNCHANGED <<mon, left>>
+            /\ mon' = MonDrop(mon, dropped)
+            /\ UNCHANGED left
        [] k \in {"foreach", "eforeach", "fold"} ->
             /\ mon' = VisitSeq(mon, t, b, ps, 1, k = "eforeach")
             /\ pc' = [pc EXCEPT ![t] = IF a = 0 THEN "ret" ELSE StartPc]
@@ -160,6 +192,8 @@ EndPull(t, b, ps) ==
             /\ left' = [left EXCEPT ![t] = l2]
             /\ pc' = [pc EXCEPT ![t] = IF a = 0 \/ l2 = 0 THEN "ret" ELSE StartPc]
             /\ UNCHANGED res
+
+EndPull(t, b, ps) == EndPullD(t, b, ps, << >>)
 
 (***************************************************************************)
 (* Actions                                                                  *)
@@ -178,7 +212,6 @@ CallBody(t, o) ==
   /\ o.k = "bnext" => buf[t] > 0
   /\ LET n == IF o.k = "bnext" THEN buf[t] ELSE o.n IN
      /\ op' = [op EXCEPT ![t] = [o EXCEPT !.n = n]]
-     /\ mon' = MCall(mon, t, o.k, n)
   /\ pc' = [pc EXCEPT ![t] = FirstPc(o)]
   /\ nops' = [nops EXCEPT ![t] = @ + 1]
   /\ left' = [left EXCEPT ![t] = o.take]
@@ -190,6 +223,15 @@ CallBody(t, o) ==
   /\ buf' = [buf EXCEPT ![t] = IF o.k = "bnew" THEN o.n ELSE IF o.k = "bdrop" THEN 0 ELSE @]
   /\ alive' = (alive /\ o.k \notin OwnerOnly)
   /\ h' = [h EXCEPT !.sched = IF t = 0 THEN @ ELSE Append(@, t), !.prog[t] = Append(@, o)]
+  \* a new buffered iterator replaces (drops) the thread's previous one; bdrop drops it; dropping the concurrent
+  \* iterator, or converting it back without taking anything, drops what the wrapped iterator has not yielded
+  /\ LET gone == CASE o.k \in {"bnew", "bdrop"} -> Leftovers(own.slots[t])
+                    [] o.k = "drop" \/ (o.k = "intoseq" /\ o.take = 0) -> InSource(taken)
+                    [] OTHER -> << >>
+         sl == CASE o.k = "bnew" -> [j \in 1..o.n |-> -1]
+                 [] o.k = "bdrop" -> << >>
+                 [] OTHER -> own.slots[t]
+     IN OwnUpd(t, sl, gone) /\ mon' = MonDrop(MCall(mon, t, o.k, IF o.k = "bnext" THEN buf[t] ELSE o.n), gone)
   /\ UNCHANGED <<cf, reserved, yielded, completed, taken, noneSeen, calls, tk, polled, hb>>
 
 Call(t, o) ==
@@ -214,7 +256,7 @@ Chk(t) ==
        THEN EndPull(t, 0, << >>)
        ELSE pc' = [pc EXCEPT ![t] = "ly"] /\ UNCHANGED <<res, mon, left>>
   /\ Sched(t)
-  /\ UNCHANGED <<cf, reserved, yielded, completed, taken, noneSeen, calls, alive, op, tk, got, polled, buf, nops>>
+  /\ UNCHANGED <<own, cf, reserved, yielded, completed, taken, noneSeen, calls, alive, op, tk, got, polled, buf, nops>>
 
 Reserve(t) ==
   /\ pc[t] = "res"
@@ -225,7 +267,7 @@ Reserve(t) ==
   /\ hb' = HbRmw(hb, t, "r", "AcqRel")
   /\ ClearPolled
   /\ Sched(t)
-  /\ UNCHANGED <<cf, yielded, completed, taken, noneSeen, calls, alive, op, left, res, buf, nops, mon>>
+  /\ UNCHANGED <<own, cf, yielded, completed, taken, noneSeen, calls, alive, op, left, res, buf, nops, mon>>
 
 LoadY(t) ==
   /\ pc[t] = "ly" /\ "y" \notin polled[t]
@@ -240,7 +282,7 @@ LoadY(t) ==
      ELSE /\ pc' = [pc EXCEPT ![t] = "lc"]
           /\ UNCHANGED <<res, mon, left>>
   /\ Sched(t)
-  /\ UNCHANGED <<cf, reserved, yielded, completed, taken, noneSeen, calls, alive, op, tk, got, buf, nops>>
+  /\ UNCHANGED <<own, cf, reserved, yielded, completed, taken, noneSeen, calls, alive, op, tk, got, buf, nops>>
 
 LoadC(t) ==
   /\ pc[t] = "lc" /\ "c" \notin polled[t]
@@ -250,7 +292,7 @@ LoadC(t) ==
        THEN EndPull(t, 0, << >>)
        ELSE pc' = [pc EXCEPT ![t] = "ly"] /\ UNCHANGED <<res, mon, left>>
   /\ Sched(t)
-  /\ UNCHANGED <<cf, reserved, yielded, completed, taken, noneSeen, calls, alive, op, tk, got, buf, nops>>
+  /\ UNCHANGED <<own, cf, reserved, yielded, completed, taken, noneSeen, calls, alive, op, tk, got, buf, nops>>
 
 Enter(t) ==
   /\ pc[t] = "enter"
@@ -258,28 +300,39 @@ Enter(t) ==
   /\ hb' = HbAccess(hb, t)
   /\ pc' = [pc EXCEPT ![t] = "exit"]
   /\ Sched(t)
-  /\ UNCHANGED <<cf, reserved, yielded, completed, taken, noneSeen, calls, alive, op, tk, got, polled, left, res, buf, nops>>
+  /\ UNCHANGED <<own, cf, reserved, yielded, completed, taken, noneSeen, calls, alive, op, tk, got, polled, left, res, buf, nops>>
 
 Exit(t) ==
   /\ pc[t] = "exit"
   /\ calls' = calls + 1
-  /\ mon' = MNextExit(mon, t)
   /\ IF calls + 1 = cf.panicAt
        THEN /\ res' = [res EXCEPT ![t] = RPanic(TRUE)]
             /\ pc' = [pc EXCEPT ![t] = IF FixH THEN "pguard" ELSE "ret"]
+            \* the items the pull had collected die while it unwinds (one-shot: its vector; for_each / fold: their
+            \* own buffered iterator); a buffered iterator of the client keeps what was written into its slots
+            /\ LET lost == IF PullKind(t) = "o" \/ (PullKind(t) = "b" /\ op[t].k # "bnext") THEN got[t] ELSE << >> IN
+               OwnUpd(t, own.slots[t], lost) /\ mon' = MonDrop(MNextExit(mon, t), lost)
             /\ UNCHANGED <<taken, got, noneSeen>>
      ELSE IF HasItem
-       THEN LET g == Append(got[t], taken) IN
+       THEN LET g == Append(got[t], taken)
+                i == Len(g)
+                bn == op[t].k = "bnext" /\ OwnApplies
+                old == IF bn /\ i <= Len(own.slots[t]) /\ own.slots[t][i] # -1 /\ Mutant # "overwrite_forgets"
+                         THEN <<own.slots[t][i]>> ELSE << >> IN
             /\ taken' = taken + 1
             /\ got' = [got EXCEPT ![t] = g]
             /\ pc' = [pc EXCEPT ![t] = IF Len(g) = Want(t) THEN "pub" ELSE "enter"]
+            \* values[i] = Some(x): a leftover of an earlier chunk in that slot is destroyed
+            /\ OwnUpd(t, IF bn /\ i <= Len(own.slots[t]) THEN [own.slots[t] EXCEPT ![i] = taken] ELSE own.slots[t], old)
+            /\ mon' = MonDrop(MNextExit(mon, t), old)
             /\ UNCHANGED <<res, noneSeen>>
      ELSE \* None: whatever the kind of pull, the iteration is marked as completed before the turn is passed on
           /\ pc' = [pc EXCEPT ![t] = IF Mutant = "short_chunk_no_completed" /\ PullKind(t) # "s"
                                             /\ (PullKind(t) = "b" \/ got[t] # << >>)
                                          THEN "pub" ELSE "setc"]
           /\ noneSeen' = TRUE
-          /\ UNCHANGED <<taken, got, res>>
+          /\ mon' = MNextExit(mon, t)
+          /\ UNCHANGED <<taken, got, res, own>>
   /\ Sched(t)
   /\ UNCHANGED <<cf, reserved, yielded, completed, alive, op, tk, polled, left, buf, nops, hb>>
 
@@ -292,7 +345,7 @@ SetC(t) ==
        THEN EndPull(t, tk[t], << >>)
        ELSE pc' = [pc EXCEPT ![t] = "pub"] /\ UNCHANGED <<res, mon, left>>
   /\ Sched(t)
-  /\ UNCHANGED <<cf, reserved, yielded, taken, noneSeen, calls, alive, op, tk, got, buf, nops>>
+  /\ UNCHANGED <<own, cf, reserved, yielded, taken, noneSeen, calls, alive, op, tk, got, buf, nops>>
 
 \* [FixH] unwinding out of the critical section marks the iteration as completed
 PGuard(t) ==
@@ -302,7 +355,7 @@ PGuard(t) ==
   /\ ClearPolled
   /\ pc' = [pc EXCEPT ![t] = "ret"]
   /\ Sched(t)
-  /\ UNCHANGED <<cf, reserved, yielded, taken, noneSeen, calls, alive, op, tk, got, left, res, buf, nops, mon>>
+  /\ UNCHANGED <<own, cf, reserved, yielded, taken, noneSeen, calls, alive, op, tk, got, left, res, buf, nops, mon>>
 
 Pub(t) ==
   /\ pc[t] = "pub"
@@ -314,8 +367,18 @@ Pub(t) ==
   /\ IF PullKind(t) # "s" /\ yielded # tk[t]
        THEN /\ res' = [res EXCEPT ![t] = RPanic(FALSE)]     \* assert_eq!(older_count, begin_idx)
             /\ pc' = [pc EXCEPT ![t] = "ret"]
-            /\ UNCHANGED <<mon, left>>
-       ELSE EndPull(t, tk[t], got[t])
+            /\ UNCHANGED <<mon, left, own>>
+       ELSE LET a == Len(got[t])
+                kk == IF op[t].take = -1 THEN a ELSE Min2(op[t].take, a)
+                rest == SubSeq(got[t], kk + 1, a)
+                chunky == op[t].k \in {"chunk", "bnext"}
+                \* one-shot: the rest dies with the chunk; buffered: it stays in the slots unless the client discards it
+                dies == IF op[t].k = "chunk" \/ (op[t].k = "bnext" /\ op[t].fin) THEN rest ELSE << >>
+                sl == IF op[t].k = "bnext" /\ OwnApplies
+                        THEN [j \in 1..Len(own.slots[t]) |-> IF j <= kk \/ (j <= a /\ op[t].fin) THEN -1 ELSE own.slots[t][j]]
+                        ELSE own.slots[t]
+            IN EndPullD(t, tk[t], got[t], IF chunky THEN dies ELSE << >>)
+               /\ OwnUpd(t, sl, IF chunky THEN dies ELSE << >>)
   /\ Sched(t)
   /\ UNCHANGED <<cf, reserved, completed, taken, noneSeen, calls, alive, op, tk, got, buf, nops>>
 
@@ -332,7 +395,7 @@ LenLoadC(t) ==
      ELSE /\ res' = [res EXCEPT ![t] = IF hm THEN RHasMore(FALSE, 0) ELSE RLen(FALSE, 0)]
           /\ pc' = [pc EXCEPT ![t] = "ret"]
   /\ Sched(t)
-  /\ UNCHANGED <<cf, reserved, yielded, completed, taken, noneSeen, calls, alive, op, tk, got, polled, left, buf, nops, mon>>
+  /\ UNCHANGED <<own, cf, reserved, yielded, completed, taken, noneSeen, calls, alive, op, tk, got, polled, left, buf, nops, mon>>
 
 LenLoadR(t) ==
   /\ pc[t] = "ldr"
@@ -341,7 +404,7 @@ LenLoadR(t) ==
      res' = [res EXCEPT ![t] = IF op[t].k = "hasmore" THEN RHasMore(TRUE, v) ELSE RLen(TRUE, v)]
   /\ pc' = [pc EXCEPT ![t] = "ret"]
   /\ Sched(t)
-  /\ UNCHANGED <<cf, reserved, yielded, completed, taken, noneSeen, calls, alive, op, tk, got, polled, left, buf, nops, mon>>
+  /\ UNCHANGED <<own, cf, reserved, yielded, completed, taken, noneSeen, calls, alive, op, tk, got, polled, left, buf, nops, mon>>
 
 \* skip_to_end, version 1.22.1: reserved.store(usize::MAX); completed.store(true)
 SkipStoreR(t) ==
@@ -351,7 +414,7 @@ SkipStoreR(t) ==
   /\ ClearPolled
   /\ pc' = [pc EXCEPT ![t] = "stc"]
   /\ Sched(t)
-  /\ UNCHANGED <<cf, yielded, completed, taken, noneSeen, calls, alive, op, tk, got, left, res, buf, nops, mon>>
+  /\ UNCHANGED <<own, cf, yielded, completed, taken, noneSeen, calls, alive, op, tk, got, left, res, buf, nops, mon>>
 
 SkipStoreC(t) ==
   /\ pc[t] = "stc"
@@ -360,7 +423,7 @@ SkipStoreC(t) ==
   /\ ClearPolled
   /\ pc' = [pc EXCEPT ![t] = "ret"]
   /\ Sched(t)
-  /\ UNCHANGED <<cf, reserved, yielded, taken, noneSeen, calls, alive, op, tk, got, left, res, buf, nops, mon>>
+  /\ UNCHANGED <<own, cf, reserved, yielded, taken, noneSeen, calls, alive, op, tk, got, left, res, buf, nops, mon>>
 
 \* into_seq_iter returns the wrapped iterator; the owner then calls its next() directly
 SeqEnter(t) ==
@@ -368,21 +431,23 @@ SeqEnter(t) ==
   /\ mon' = MNextEnter(mon, t)
   /\ hb' = HbAccess(hb, t)
   /\ pc' = [pc EXCEPT ![t] = "sexit"]
-  /\ UNCHANGED <<cf, reserved, yielded, completed, taken, noneSeen, calls, alive, op, tk, got, polled, left, res, buf, nops, h>>
+  /\ UNCHANGED <<own, cf, reserved, yielded, completed, taken, noneSeen, calls, alive, op, tk, got, polled, left, res, buf, nops, h>>
 
 SeqExit(t) ==
   /\ pc[t] = "sexit"
   /\ calls' = calls + 1
-  /\ mon' = MNextExit(mon, t)
   /\ IF HasItem
        THEN LET l2 == IF left[t] > 0 THEN left[t] - 1 ELSE left[t] IN
             /\ taken' = taken + 1
             /\ res' = [res EXCEPT ![t].vals = Append(@, cf.base + taken)]
             /\ left' = [left EXCEPT ![t] = l2]
             /\ pc' = [pc EXCEPT ![t] = IF l2 = 0 THEN "ret" ELSE "senter"]
+            /\ LET gone == IF l2 = 0 THEN InSource(taken + 1) ELSE << >> IN
+               OwnUpd(t, own.slots[t], gone) /\ mon' = MonDrop(MNextExit(mon, t), gone)
        ELSE /\ res' = [res EXCEPT ![t].full = TRUE]
             /\ pc' = [pc EXCEPT ![t] = "ret"]
-            /\ UNCHANGED <<taken, left>>
+            /\ mon' = MNextExit(mon, t)
+            /\ UNCHANGED <<taken, left, own>>
   /\ noneSeen' = (noneSeen \/ ~HasItem)
   /\ UNCHANGED <<cf, reserved, yielded, completed, alive, op, tk, got, polled, buf, nops, hb, h>>
 
@@ -390,6 +455,7 @@ Ret(t) ==
   /\ pc[t] = "ret"
   /\ mon' = MRet(mon, t, res[t])
   /\ pc' = [pc EXCEPT ![t] = "idle"]
+  /\ own' = [own EXCEPT !.expd[t] = << >>]
   /\ Sched(t)
   /\ UNCHANGED <<cf, reserved, yielded, completed, taken, noneSeen, calls, alive, op, tk, got, polled, left, res, buf, nops, hb>>
 
@@ -397,7 +463,9 @@ Stop(t) ==
   /\ pc[t] = "idle"
   /\ (Scenario # "" /\ t # 0) => nops[t] = Len(ScenarioProg[t])
   /\ pc' = [pc EXCEPT ![t] = "done"]
-  /\ UNCHANGED <<cf, reserved, yielded, completed, taken, noneSeen, calls, alive, op, tk, got, polled, left, res, buf, nops, mon, hb, h>>
+  /\ mon' = MonDrop(mon, Leftovers(own.slots[t]))
+  /\ own' = [own EXCEPT !.slots[t] = << >>]
+  /\ UNCHANGED <<cf, reserved, yielded, completed, taken, noneSeen, calls, alive, op, tk, got, polled, left, res, buf, nops, hb, h>>
 
 Step(t) ==
   \/ \E o \in Ops : Call(t, o)
@@ -408,7 +476,7 @@ InitWith(c) ==
   /\ cf = c
   /\ reserved = 0 /\ yielded = 0 /\ completed = FALSE /\ taken = 0 /\ noneSeen = FALSE /\ calls = 0 /\ alive = TRUE
   /\ pc = [t \in 0..c.nt |-> "idle"]
-  /\ op = [t \in 0..c.nt |-> [k |-> "", n |-> 0, take |-> -1]]
+  /\ op = [t \in 0..c.nt |-> [k |-> "", n |-> 0, take |-> -1, fin |-> FALSE]]
   /\ tk = [t \in 0..c.nt |-> 0]
   /\ got = [t \in 0..c.nt |-> << >>]
   /\ polled = [t \in 0..c.nt |-> {}]
@@ -418,13 +486,14 @@ InitWith(c) ==
   /\ nops = [t \in 0..c.nt |-> 0]
   /\ mon = MonInit(MonCfg(c))
   /\ hb = HbInit(c.nt, {"r", "y", "c"})
+  /\ own = OwnInit(c)
   /\ h = [sched |-> << >>, prog |-> [t \in 0..c.nt |-> << >>]]
 
 ResetWith(c) ==
   /\ cf' = c
   /\ reserved' = 0 /\ yielded' = 0 /\ completed' = FALSE /\ taken' = 0 /\ noneSeen' = FALSE /\ calls' = 0 /\ alive' = TRUE
   /\ pc' = [t \in 0..c.nt |-> "idle"]
-  /\ op' = [t \in 0..c.nt |-> [k |-> "", n |-> 0, take |-> -1]]
+  /\ op' = [t \in 0..c.nt |-> [k |-> "", n |-> 0, take |-> -1, fin |-> FALSE]]
   /\ tk' = [t \in 0..c.nt |-> 0]
   /\ got' = [t \in 0..c.nt |-> << >>]
   /\ polled' = [t \in 0..c.nt |-> {}]
@@ -434,6 +503,7 @@ ResetWith(c) ==
   /\ nops' = [t \in 0..c.nt |-> 0]
   /\ mon' = MonInit(MonCfg(c))
   /\ hb' = HbInit(c.nt, {"r", "y", "c"})
+  /\ own' = OwnInit(c)
   /\ h' = [sched |-> << >>, prog |-> [t \in 0..c.nt |-> << >>]]
 
 Init == InitWith(CfgOfModel)
@@ -464,6 +534,10 @@ Inv_C17 == Holds(mon, "C17")
 \* whenever a thread is about to call the wrapped next(), everything before its ticket has been taken
 Inv_TicketIsPosition ==
   \A t \in T : pc[t] = "enter" /\ op[t].k # "intoseq" /\ taken < cf.len /\ ~noneSeen => taken = tk[t] + Len(got[t])
+\* C08 / C15 on the model: when the concurrent iterator is gone and every thread has ended (its buffered iterator
+\* with it), every element the wrapped iterator held or yielded has been handed to a caller or destroyed exactly once
+Inv_OwnEnd == (OwnApplies /\ ~alive /\ cf.panicAt = 0 /\ \A t \in T : pc[t] = "done")
+                => \A p \in 0..(cf.len - 1) : mon.moves[p] + mon.drops[p] = 1
 \* no wrap-around under the precondition of C01 / C05
 Inv_NoWrap == reserved < MOD \div 2 /\ yielded < MOD \div 2
 \* C09 / C18: with the poll reduction, a hang of the real code is a deadlock of this model
